@@ -237,7 +237,7 @@ var ascPool = [][]byte{{0x12, 0x10}, {0x11, 0x90}, nil, {0x00, 0x00}, {0xf8}, {0
 func genPipes(c *Ctx, tbl *d.SpsTable) {
 	g := &d.Gen{R: c.Rng, Count: c.Count, Small: true}
 	r := c.Rng
-	nBase := c.Budget(40, 250)
+	nBase := c.Budget(40, 180)
 	perBase := c.Budget(12, 30)
 	var bases []*pcase
 	for i := 0; i < nBase; i++ {
